@@ -954,6 +954,19 @@ def check(ctx):
     _restore(ctx, server, put)
     _units(ctx)
     _reported(ctx)
+    # shared with C05.2 / C04.1: an instance leaves the cell's table only
+    # after it was taken off its server - whatever its flags say (a sticky
+    # "evicted" mark does not mean it is off): otherwise the server keeps
+    # listing it and its capacity is never given back
+    from . import c05
+    with ctx.shared({'C05': 'C01.3'}):
+        c05._model_removal(ctx, removal_rule='C01.3')
+    # shared with C09.4: the self check that finds an instance recorded under
+    # two servers judges each copy against the model as it was recorded - the
+    # copy the model names is the one that stays
+    from . import c09
+    with ctx.shared({'C09': 'C01.9'}):
+        c09._self_check_repair(ctx)
 
 
 _S = 'lib/python/treadmill/scheduler/__init__.py'
